@@ -1,12 +1,12 @@
 package shape
 
 import (
-	"go/types"
-	"sort"
-	"verif/checker/internal/lin"
 	"fmt"
+	"go/types"
 	"io"
+	"sort"
 	"strings"
+	"verif/checker/internal/lin"
 
 	"verif/checker/internal/load"
 )
@@ -163,4 +163,25 @@ func StreamsOf(v Value) []*Stream {
 // SymResolver maps a symbol name to its expression.
 func SymResolver(r *Result) func(string) *lin.Expr {
 	return func(name string) *lin.Expr { return lin.V(lin.Sym(name)) }
+}
+
+// FieldOf returns the value stored in an object's field (nil when unset).
+func FieldOf(o *Object, name string) Value {
+	if o == nil {
+		return nil
+	}
+	if c, ok := o.Fields[name]; ok {
+		return c.V
+	}
+	return nil
+}
+
+// MarkConsumed records a consumer that is not a stage (the report template).
+func MarkConsumed(s *Stream, kind string) {
+	for _, r := range s.Readers {
+		if r.Kind == kind {
+			return
+		}
+	}
+	s.Readers = append(s.Readers, &Read{Kind: kind, Drained: true, Consumed: s.Len})
 }
